@@ -28,6 +28,8 @@ EXPLANATION = (
 )
 TECHNIQUE += '; control-dependence comparison of parallel per-record list appends; empty-dict path sensitivity in the termination analysis'
 EXPLANATION += " Added: (R7) lists appended in one record loop under the same guards form a group; no sibling list is appended under an extra condition (unequal lengths); R4 now proves the Molden [MO] loop through an 'empty dict' pseudo-flag (info[<const>] on an empty dict ends the path) instead of a frozen exception."
+TECHNIQUE += '; all-paths-raise computation on the funnel handlers'
+EXPLANATION += ' R1 also requires every handler of the API funnels (other than the unreachable StopIteration handler of the generator funnel) to end in raise on all paths.'
 TRUSTED = [
     "CPython ast parser", "PEP 479 (StopIteration leaving a generator body becomes RuntimeError)",
     "with-statement calls __exit__ on every exit including GeneratorExit",
@@ -104,6 +106,13 @@ def run(ctx):
                 ctx.ok("R1", f"{f.name}: StopIteration handler returns (unreachable for generator loaders: PEP 479)", f"{f.module.relpath}:{h.lineno}")
             else:
                 ctx.violate("R1", f"{f.name}: handler for {cls} does not raise LoadError", f, h)
+        # no handler of the funnel may complete normally (that would turn a failure into a short but valid result);
+        # the one exception is a handler for StopIteration alone in the generator funnel (unreachable: PEP 479)
+        for h in t.handlers:
+            only_si = isinstance(h.type, ast.Name) and h.type.id == "StopIteration"
+            if _ends_raising(h.body) or (only_si and f.is_generator):
+                continue
+            ctx.violate("R1", f"{f.name}: the handler `except {src_of(h.type) if h.type is not None else ''}` can complete without raising: the error is swallowed and the caller gets a (shorter) result", f, h)
         # decorators are transparent
         for d in f.decorators:
             r = prog.resolve_expr(None, f.module, d.func if isinstance(d, ast.Call) else d)
@@ -243,6 +252,48 @@ def run(ctx):
     check_validate_shape(ctx, "R5")
     check_line_counter(ctx)
     check_parallel_lists(ctx)
+
+
+def _outcomes(stmts):
+    """Set of ways a statement list can end: 'fall' (runs off its end), 'raise', 'exit' (return/break/continue)."""
+    out = set()
+    for st in stmts:
+        if isinstance(st, ast.Raise):
+            out.add("raise")
+            return out
+        if isinstance(st, (ast.Return, ast.Break, ast.Continue)):
+            out.add("exit")
+            return out
+        if isinstance(st, ast.If):
+            o = _outcomes(st.body) | _outcomes(st.orelse)
+        elif isinstance(st, (ast.With, ast.AsyncWith)):
+            o = _outcomes(st.body)
+        elif isinstance(st, (ast.For, ast.While)):
+            o = {x for x in _outcomes(st.body) if x == "raise"} | {"fall"}
+            if any(isinstance(x, ast.Return) for b in st.body for x in ast.walk(b)):
+                o.add("exit")
+        elif isinstance(st, ast.Try):
+            o = _outcomes(st.body + st.orelse)
+            for h in st.handlers:
+                o |= _outcomes(h.body)
+            if st.finalbody:
+                fo = _outcomes(st.finalbody)
+                if "fall" not in fo:
+                    o = fo
+                else:
+                    o |= fo - {"fall"}
+        else:
+            o = {"fall"}
+        out |= o - {"fall"}
+        if "fall" not in o:
+            return out
+    out.add("fall")
+    return out
+
+
+def _ends_raising(stmts):
+    """Every path through the statement list ends in a raise."""
+    return _outcomes(stmts) == {"raise"}
 
 
 def check_parallel_lists(ctx):
